@@ -225,7 +225,81 @@ def specs():
     add("AngularRate[integration]", lambda g: np.asarray(F.AngularRate(g, method="integration").Q), lambda a: [a.v(6, 0.3)])
     add("AngularRate.update", lambda q, g: F.AngularRate().update(q, g), lambda a: [a.qu(), a.v(s=0.3)])
     add("Sensors(quaternions=)", lambda Q: __import__("ahrs").utils.sensors.Sensors(quaternions=Q).accelerometers.shape, lambda a: [a.qu(12)])
+    # ---- one object, the same (non in-place) method called three times on it: the results must agree and, for the array classes,
+    # the object's own data must stay as it was.  'twice' packs what the dedicated clauses in check() need.
+    def twice(make, method, array_class=True):
+        def fn(*args):
+            ncons = make.__code__.co_argcount
+            obj = make(*args[:ncons])
+            st0 = obj_state(obj) if array_class else None
+            r = []
+            for k in range(3):
+                np.random.seed(0)
+                if k == 0:
+                    r.append(method(obj, *args[ncons:]))      # a first call that raises is other properties' business
+                    continue
+                try:
+                    r.append(method(obj, *args[ncons:]))
+                except Exception as exc:                      # noqa: BLE001 - a repeat that raises after a first success is a failed repeat
+                    r.append(RepeatRaised("%s: %s" % (type(exc).__name__, str(exc)[:100])))
+            return SameObject(r, st0, obj_state(obj) if array_class else None)
+        return fn
+
+    def same(name, make, method, fac, array_class=True):
+        add("[same object] " + name, twice(make, method, array_class), fac)
+    Qv = lambda q: Quaternion(q)                        # noqa: E731
+    Qn = lambda q: Quaternion(q, versor=False)          # noqa: E731
+    for lab, mk in (("Quaternion", Qv), ("Quaternion[versor=False]", Qn)):
+        same(lab + ".conjugate/inverse", mk, lambda X: (X.conjugate, X.inverse, X.conj, X.inv), lambda a: [a.q()])
+        same(lab + ".exponential/logarithm", mk, lambda X: (X.exponential, X.logarithm, X.exp, X.log), lambda a: [a.q()])
+        same(lab + ".to_DCM/to_angles/to_axang", mk, lambda X: (X.to_DCM(), X.to_angles(), X.to_axang()[0], X.to_axang()[1]), lambda a: [a.q()])
+        same(lab + ".product", mk, lambda X, p: (X.product(p), X * p), lambda a: [a.q(), a.q()])
+        same(lab + ".rotate", mk, lambda X, v: X.rotate(v), lambda a: [a.q(), a.v()])
+        same(lab + ".ode", mk, lambda X, w: X.ode(w), lambda a: [a.q(), a.v()])
+        same(lab + ".mult_L/mult_R", mk, lambda X: (X.mult_L(), X.mult_R()), lambda a: [a.q()])
+        same(lab + ".__pow__", mk, lambda X: (X ** 0.5, X ** -1.0, X ** 2), lambda a: [a.q()])
+        same(lab + ".is_*", mk, lambda X: (float(X.is_pure()), float(X.is_real()), float(X.is_versor()), float(X.is_identity())), lambda a: [a.q()])
+    QA = lambda Q: QuaternionArray(Q)                   # noqa: E731
+    same("QuaternionArray.average", QA, lambda X: X.average(), lambda a: [a.qu(6)])
+    same("QuaternionArray.average[weights]", QA, lambda X, w: X.average(weights=w), lambda a: [a.qu(6), a.rng.uniform(0.1, 2, 6)])
+    same("QuaternionArray.average[span]", QA, lambda X: X.average(span=(1, 5)), lambda a: [a.qu(6)])
+    same("QuaternionArray.to_DCM/to_angles/conjugate", QA, lambda X: (X.to_DCM(), X.to_angles(), X.conjugate()), lambda a: [a.q(5)])
+    same("QuaternionArray.angular_velocities", QA, lambda X: X.angular_velocities(0.01), lambda a: [a.qu(6)])
+    same("QuaternionArray.rotate_by", QA, lambda X, q: X.rotate_by(q), lambda a: [a.q(5), a.q()])
+    same("QuaternionArray.is_*", QA, lambda X: (X.is_pure().astype(float), X.is_real().astype(float), X.is_versor().astype(float), X.is_identity().astype(float)), lambda a: [a.q(5)])
+    same("QuaternionArray[versors=False].rotate_by", lambda Q: QuaternionArray(Q, versors=False), lambda X, q: X.rotate_by(q), lambda a: [a.q(5), a.q()])
+    D = lambda R: DCM(R)                                # noqa: E731
+    for m_ in ("shepperd", "hughes", "chiaverini", "itzhack", "sarabandi"):
+        same("DCM.to_quaternion[%s]" % m_, D, lambda X, m_=m_: X.to_quaternion(m_), lambda a: [a.R()])
+    same("DCM.log/to_axisangle/to_rpy/to_angles", D, lambda X: (X.log, X.to_axisangle()[0], X.to_axisangle()[1], X.to_rpy(), X.to_angles()), lambda a: [a.R()])
+    same("DCM.inv/I/adj/det/fro", D, lambda X: (X.inv, X.I, X.adj, X.det, X.fro), lambda a: [a.R()])
+    same("DCM.ode", D, lambda X, w: X.ode(w), lambda a: [a.R(), a.v()])
+    for nm, mk_, est in (("Tilt", lambda: F.Tilt(), None), ("SAAM", lambda: F.SAAM(), None), ("FAMC", lambda: F.FAMC(), None), ("FQA", lambda: F.FQA(), None),
+                         ("QUEST", lambda: F.QUEST(), None), ("Davenport", lambda: F.Davenport(), None), ("FLAE", lambda: F.FLAE(), None),
+                         ("FLAE[symbolic]", lambda: F.FLAE(), lambda X, x, y: X.estimate(x, y, method="symbolic")), ("OLEQ", lambda: F.OLEQ(), None),
+                         ("TRIAD", lambda: F.TRIAD(), None), ("TRIAD[quaternion]", lambda: F.TRIAD(), lambda X, x, y: X.estimate(x, y, "quaternion")),
+                         ("AQUA", lambda: F.AQUA(), None)):
+        same(nm + ".estimate", mk_, est or (lambda X, x, y: X.estimate(x, y)), lambda a: list(a.am()), array_class=False)
     return S
+
+
+class RepeatRaised:
+    def __init__(self, msg):
+        self.msg = msg
+
+
+class SameObject:
+    def __init__(self, results, state_before, state_after):
+        self.results, self.state_before, self.state_after = results, state_before, state_after
+
+
+def obj_state(obj):
+    """bytes of the data an ndarray-subclass object holds: its own buffer and the plain-array attribute the methods read."""
+    out = [np.asarray(obj).tobytes()]
+    for at in ("A", "array"):
+        if hasattr(obj, at):
+            out.append(np.asarray(getattr(obj, at)).tobytes())
+    return out
 
 
 SPEC_NAMES = None
@@ -234,11 +308,13 @@ PROBES = [("ahrs.common.orientation", f) for f in ("q_mult_L", "q_mult_R", "axan
          [("ahrs.filters.fqa", "FQA.estimate"), ("ahrs.filters.flae", "FLAE.estimate")]
 REQUIRED_PROBES = ["orientation.q_mult_L", "orientation.q_mult_R", "orientation.axang2quat", "orientation.quat2axang", "orientation.q2R", "orientation.rpy2q",
                    "orientation.am2angles", "orientation.slerp", "fqa.FQA.estimate", "flae.FLAE.estimate"]
-RULE = ("cases = (call specification out of ~165 public functions / constructors / methods with their array-valued keywords, argument form): fresh C-contiguous "
+RULE = ("cases = (call specification out of ~210 public functions / constructors / methods with their array-valued keywords, argument form): fresh C-contiguous "
         "arrays, non-contiguous views of a larger buffer (the buffer is compared too), and the same array passed for two parameters of equal shape; values are "
         "non-normalised quaternions, angles in degrees where a flag says so, raw sensor rows; every spec is driven in every form each run; non-trivial = all")
 ASSUMPTIONS = ["only parameters documented as arrays are passed arrays", "explicitly in-place operations (normalize(), inplace=True, remove_jumps()) are exempt and not called",
-               "functions documented as random are re-seeded (np.random.seed) before each of the three calls", "equality of repeated results is array_equal with NaN == NaN"]
+               "functions documented as random are re-seeded (np.random.seed) before each of the three calls", "equality of repeated results is array_equal with NaN == NaN",
+               "'[same object]' specifications build one object and call the same non in-place method three times on it (results compared, and the object's own "
+               "array data for Quaternion / QuaternionArray / DCM)"]
 
 
 def generate(rng, tier, shard, nshards):
@@ -262,6 +338,8 @@ _cache = {}
 
 
 def flat(r):
+    if isinstance(r, SameObject):
+        r = [x for x in r.results if not isinstance(x, RepeatRaised)]
     if isinstance(r, (tuple, list)):
         return np.concatenate([flat(x) for x in r]) if len(r) else np.zeros(0, complex)
     if r is None:
@@ -353,6 +431,19 @@ def check(case, ctx):
     if not r1.ok:
         ctx.note("call raised %s (validity is other properties' business): repeatability not evaluated" % r1.exc_name)
         return
+    if isinstance(r1.value, SameObject):
+        so = r1.value
+        raised = [x.msg for x in so.results if isinstance(x, RepeatRaised)]
+        if raised:
+            ctx.ok("a method called again on the same object returns the same result", False, {"repeat_raised": raised[0], "form": case.p["form"]}, route=name)
+        else:
+            f = [flat(x) for x in so.results]
+            same_ = all(f[0].shape == x.shape and np.array_equal(f[0], x, equal_nan=True) for x in f[1:])
+            ctx.ok("a method called again on the same object returns the same result", same_,
+                   {"max_diff": float(max(np.nanmax(np.abs(f[0] - x)) if f[0].shape == x.shape and x.size else np.inf for x in f[1:])), "form": case.p["form"]}, route=name)
+        if so.state_before is not None:
+            ctx.ok("a method that is not an in-place operation leaves the object's own data byte-identical", so.state_before == so.state_after,
+                   {"which": [i for i, (b, c) in enumerate(zip(so.state_before, so.state_after)) if b != c]}, route=name)
     # repeatability: same objects again, then pristine copies
     r2 = call(run, args)
     # pristine arguments in the same memory layout (a strided view and a contiguous copy may legitimately differ in the last bit)
